@@ -43,6 +43,7 @@ def gen_nesting(rng):
     ncont = rng.randint(2, 12)
     level = 0
     have_meta = False
+    change_has_meta = False
 
     def text(eff):
         parts = [p for p in NONASCII if gen.enc_ok(p, eff)] or ['e']
@@ -80,7 +81,9 @@ def gen_nesting(rng):
         content('meta')
 
     for _ in range(ncont):
-        if level == 0 or (level >= 2 and have_meta and rng.chance(0.35)):
+        if level == 0 or (level >= 2 and have_meta and rng.chance(0.35)) or \
+           (level == 1 and change_has_meta and rng.chance(0.25)):
+            # (a change holding only metadata may be followed by a change)
             name, lvl = 'change', 1
         elif level == 1:
             name, lvl = 'file', 2
@@ -106,8 +109,11 @@ def gen_nesting(rng):
             if rng.chance(0.6):
                 content('preamble')
 
+            change_has_meta = False
+
             if rng.chance(0.5):
                 content('meta')
+                change_has_meta = True
         else:
             content('meta')
             have_meta = True
@@ -118,8 +124,35 @@ def gen_nesting(rng):
     return main, ops
 
 
+def add_rejected_calls(rng, ops):
+    """Content calls that must be rejected (empty text, unencodable text, bad
+    line_endings), each declaring an encoding of its own: a rejected call
+    must not leave that encoding behind."""
+    out = []
+
+    for op in ops:
+        out.append(op)
+
+        if rng.chance(0.25):
+            e = rng.choice(gen.ENCS_VISIBLE)
+            out.append(rng.choice([
+                {'op': 'write_preamble', 'text': '', 'encoding': e},
+                {'op': 'write_meta', 'metadata': {}, 'encoding': e},
+                {'op': 'write_preamble', 'text': 'x', 'encoding': e,
+                 'line_endings': 'mac'},
+                {'op': 'write_preamble', 'text': '\u2603 \u65e5',
+                 'encoding': 'ascii'},
+                {'op': 'write_meta', 'metadata': {'k': 1}, 'encoding': e,
+                 'meta_format': 'yaml'}]))
+
+    return out
+
+
 def generate(rng, tier, cls):
     main, ops = gen_nesting(rng)
+
+    if rng.chance(0.3):
+        ops = add_rejected_calls(rng, ops)
     r = {'id': 'R1', 'kind': 'reader', 'file': 'f1'}
 
     if rng.chance(0.3):
@@ -203,8 +236,18 @@ def execute(scn, L):
     _, m0 = gen.filter_ops(wspec['main_encoding'], wspec['ops'])
     rspec = dict(rspec, file=wspec['file'])
     twin_file = wspec['file'] + '.ref'
+    # the real writer also receives the calls the model rejects (wrong
+    # order / invalid arguments): they must change nothing
+    raw = [a for a in scn.get('actors', ()) if a.get('kind') == 'writer'][0]
+    wreal = dict(wspec, ops=[op for op in raw.get('ops', ())
+                             if isinstance(op, dict) and 'op' in op and
+                             not R.has_tag(op)])
+
+    if len(wreal['ops']) != len(wspec['ops']):
+        out.probe('history_with_rejected_calls')
+
     actors = [
-        wspec, rspec,
+        wreal, rspec,
         {'id': 'REF', 'kind': 'raw', 'file': twin_file,
          'hex': m0.getvalue().hex()},
         dict(rspec, id='R-ref', file=twin_file),
